@@ -71,8 +71,9 @@ StArityOk(def) ==
 
 \* no way of typing one definition is a prefix of (or equal to) a way of typing another
 StPrefixFree(table) ==
+  LET enc == [i \in DOMAIN table |-> StEncode(table[i])] IN
   \A i, j \in DOMAIN table : i # j =>
-     \A s \in StEncode(table[i]), t \in StEncode(table[j]) : ~StIsPrefix(s, t)
+     \A s \in enc[i] : \A t \in enc[j] : ~StIsPrefix(s, t)
 
 StAccepts(table) == (\A i \in DOMAIN table : StArityOk(table[i])) /\ StPrefixFree(table)
 
